@@ -101,8 +101,11 @@ def gen_block(rng, depth, in_loop, names, budget):
             names["nested"] += 1
             cap = rng.sample(names["readable"][:6], rng.randint(0, 2))
             out.append(("nested", f"h{names['nested']}", cap))
-        elif r < 0.985:
+        elif r < 0.978:
             out.append(("seti", IDX))
+        elif r < 0.992:
+            # self-referencing (re)assignment of the int-only variable: reads it, then assigns it
+            out.append(("inc", IDX, rng.choice(["ann", "plain", "aug"])))
         else:
             out.append(("use", rng.choice(names["readable"])))
         if rng.random() < 0.06:
@@ -150,6 +153,8 @@ def show(body, ind=1):
             lines.append(f"{pad}{s[1]}")
         elif k == "seti":
             lines.append(f"{pad}{ARR[0]}[{s[1]}] = 1")
+        elif k == "inc":
+            lines.append(pad + {"ann": f"{s[1]}: int = {s[1]} + 1", "plain": f"{s[1]} = {s[1]} + 1", "aug": f"{s[1]} += 1"}[s[2]])
         elif k == "if":
             lines.append(f"{pad}if {show_cond(s[1])}:")
             lines += show(s[2], ind + 1) or [f"{pad}    pass"]
@@ -210,6 +215,9 @@ def tag_of(value, idx=None):
         return "opt"
     if isinstance(value, ast.Call) and isinstance(value.func, ast.Attribute) and value.func.attr == "unwrap":
         return ["int", "iter"][idx] if idx is not None and idx < 2 else f"unwrap{idx}"
+    if (isinstance(value, ast.BinOp) and isinstance(value.left, ast.Name) and value.left.id == IDX
+            and isinstance(value.right, ast.Constant) and type(value.right.value) is int):
+        return "int"  # `k1 + 1`: k1 is only ever an int
     return "expr:" + type(value).__name__ + (f"#{idx}" if idx is not None else "")
 
 
@@ -240,6 +248,18 @@ def events_of(stmt, caps):
                         ev += [("u", x) for x in loads(e)]
             else:
                 ev += [("u", x) for x in loads(t)]
+    elif isinstance(stmt, ast.AnnAssign):
+        # Python (and the property) evaluate the value first, then bind the target; the annotation reads nothing
+        if stmt.value is not None:
+            ev += [("u", x) for x in loads(stmt.value)]
+            if isinstance(stmt.target, ast.Name):
+                ev.append(("a", stmt.target.id, tag_of(stmt.value)))
+            else:
+                ev += [("u", x) for x in loads(stmt.target)]
+    elif isinstance(stmt, ast.AugAssign):
+        ev += [("u", x) for x in loads(stmt.target)] + [("u", x) for x in loads(stmt.value)]
+        if isinstance(stmt.target, ast.Name):
+            ev.append(("a", stmt.target.id, "int" if stmt.target.id == IDX else "expr:AugAssign"))
     elif isinstance(stmt, (ast.Expr, ast.Return)):
         if stmt.value is not None:
             ev += [("u", x) for x in loads(stmt.value)]
@@ -445,7 +465,7 @@ def source_undefined(body):
 
     def collect(b):
         for st in b:
-            if st[0] == "asg":
+            if st[0] in ("asg", "inc"):
                 assigned.add(st[1])
             elif st[0] == "if":
                 collect(st[2]); collect(st[3])
@@ -482,6 +502,9 @@ def source_undefined(body):
                 s = _St(s.reach, s.defs | {st[1]})
             elif k in ("use", "seti"):
                 use(st[1], s)
+            elif k == "inc":
+                use(st[1], s)
+                s = _St(s.reach, s.defs | {st[1]})
             elif k == "nested":
                 for x in st[2]:
                     if x != "p":
@@ -584,6 +607,9 @@ def source_type_conflicts(body):
                 st = setty(st, stmt[1], stmt[2])
             elif k in ("use", "seti"):
                 use(stmt[1], st)
+            elif k == "inc":
+                use(stmt[1], st)
+                st = setty(st, stmt[1], "int")
             elif k == "nested":
                 for x in stmt[2]:
                     if x != "p":
